@@ -57,13 +57,33 @@ Theorem C15_other_identifiers_untouched : forall isd term rep s, ~ In term (word
 Proof. exact replace_words_untouched. Qed.
 Print Assumptions C15_other_identifiers_untouched.
 
-(* rhs_only / lhs_only.  Both set = none set (theorem).  One set: the documented meaning ("only in the right-hand /
-   left-hand side of the equation") is NOT what the loop computes — full statement kept visible, refuted. *)
-Definition C15_flags_full_statement : Prop := forall rhs lhs eq,
-  replace_flags is_delim (L "r"%string) (L "X"%string) rhs lhs eq = Some (replace_words_sided is_delim (L "r"%string) (L "X"%string) rhs lhs eq).
-Theorem C15_flags_partial : forall isd term rep eq, replace_flags isd term rep true true eq = replace isd term rep eq.
+(* rhs_only / lhs_only (as repaired by fix D52: seen_eq is carried across the cuts).  For EVERY equation string, every
+   non-empty delimiter-free term, every replacement and every flag setting, the loop returns the SIDED word-wise
+   substitution: the equation is split into words; a word that is the term is replaced iff
+     rhs_only: it lies to the right of the first "=" of the ORIGINAL string,   lhs_only: it lies to its left,
+     both flags or none: always.
+   Before D52 this was false ('=' was searched only in the piece since the previous occurrence:
+   replace('a = r + r','r','X',rhs_only=True) = 'a = X + r'); the old witnesses are regression cases in corpus/C15. *)
+Theorem C15_flags_full : forall isd term rep, term <> [] -> nodelim isd term = true -> isd "="%char = true ->
+  forall rhs lhs eq, replace_flags isd term rep rhs lhs eq = Some (replace_words_sided isd term rep rhs lhs eq).
+Proof. exact replace_flags_full. Qed.
+Print Assumptions C15_flags_full.
+
+(* the same about the text regenerated from the current source (E2), with the code's own delimiter set *)
+Theorem C15_flags_full_generated : forall (eq term rep : string) (rhs lhs : bool), la term <> [] -> nodelim is_delim (la term) = true ->
+  Gen_replace.replace eq term rep rhs lhs = Some (sla (replace_words_sided is_delim (la term) (la rep) rhs lhs (la eq))).
+Proof.
+  intros eq term rep rhs lhs Hne Hnd.
+  rewrite <- (string_of_list_ascii_of_string eq), <- (string_of_list_ascii_of_string term), <- (string_of_list_ascii_of_string rep) at 1.
+  change string_of_list_ascii with sla. change list_ascii_of_string with la.
+  rewrite ReplaceEquiv.gen_replace_equiv. now rewrite (replace_flags_full is_delim (la term) (la rep) Hne Hnd eq_refl).
+Qed.
+Print Assumptions C15_flags_full_generated.
+
+Theorem C15_both_flags_is_none : forall isd term rep eq, replace_flags isd term rep true true eq = replace isd term rep eq.
 Proof. exact replace_both_flags. Qed.
-Print Assumptions C15_flags_partial.
+Print Assumptions C15_both_flags_is_none.
+
 (* _update_equation(replace, remove, append, prepend): the sequential composition of word-wise substitutions *)
 Theorem C15_update_equation_full : forall isd e eq, edit_ok isd e = true ->
   update_equation isd e eq = Some (update_equation_spec isd e eq).
